@@ -7,6 +7,9 @@ package bech32
 //verif:run quick hl=0..3 dl=0..6 rt=0
 //verif:run quick hl=83..85 dl=0..1 rt=0
 //verif:run quick hl=1 dl=50..52 rt=0
+//verif:run quick hl=2 dl=50..52 rt=0
+//verif:run quick hl=79..82 dl=1..2 rt=0
+//verif:run quick hl=75..76 dl=3..4 rt=0
 //verif:run quick hl=1..2 dl=0..1 rt=1
 //verif:run thorough hl=4..8 dl=0..12 rt=0
 //verif:run thorough hl=10 dl=45..46 rt=0
